@@ -145,12 +145,91 @@ fn drive(sched: &Arc<Sched>, n: u64, schedule: &[u64], rng: Option<&mut StdRng>)
     }
 }
 
+/// PidAlloc!SeqIssue(k) for the real constants (transcribed from spec/PidAlloc.tla; TLC checks IssuedIsSequence against
+/// the step-by-step spec on scaled constants): the k-th identifier issued from the origin (id0, counter c0)
+fn seq_issue(id0: u64, c0: u64, k: u64) -> (u32, u32) {
+    const MAX: u64 = 1_048_576;
+    let pos = (id0 - 1) + k;
+    let id = pos % MAX + 1;
+    let cyc = pos / MAX;
+    (id as u32, ((c0 + cyc + if id == MAX { 1 } else { 0 }) & 0xFFFF_FFFF) as u32)
+}
+
+/// free-running threads allocate `total` identifiers in all; what was issued must be exactly the first `total` members of
+/// the spec's sequence (so in particular pairwise distinct), each with the creation in force
+fn bulk(si: usize, sc: &Value) -> Value {
+    let n = sc["threads"].as_u64().unwrap_or(1);
+    let total = sc["total"].as_u64().unwrap_or(1000);
+    let id0 = sc["start_id"].as_u64().unwrap_or(1);
+    let c0 = sc["start_serial"].as_u64().unwrap_or(0);
+    let creation = sc["creation"].as_u64().unwrap_or(1) as u32;
+    let alloc = Arc::new(PidAllocator::new(Atom::new("verif@127.0.0.1"), creation));
+    alloc.next_id_test_only().store(id0 as u32, Ordering::SeqCst);
+    alloc.next_serial_test_only().store(c0, Ordering::SeqCst);
+    let per = total / n;
+    let mut hs = Vec::new();
+    for _ in 0..n {
+        let a = alloc.clone();
+        hs.push(std::thread::spawn(move || {
+            let mut v = Vec::with_capacity(per as usize);
+            for _ in 0..per {
+                if let Ok(p) = a.allocate() {
+                    v.push((p.id, p.serial, p.creation));
+                }
+            }
+            v
+        }));
+    }
+    let mut got: Vec<(u32, u32, u32)> = Vec::new();
+    for h in hs {
+        got.extend(h.join().unwrap_or_default());
+    }
+    let issued = got.len() as u64;
+    let wrong_creation = got.iter().filter(|p| p.2 != creation).count();
+    let mut g: Vec<(u32, u32)> = got.iter().map(|p| (p.0, p.1)).collect();
+    g.sort_unstable();
+    let dup = g.windows(2).filter(|w| w[0] == w[1]).count();
+    let first_dup = g.windows(2).find(|w| w[0] == w[1]).map(|w| json!([w[0].0, w[0].1]));
+    let mut e: Vec<(u32, u32)> = (0..issued).map(|k| seq_issue(id0, c0, k)).collect();
+    e.sort_unstable();
+    let mut not_in_sequence = Vec::new();
+    let mut missing = 0usize;
+    // multiset difference of two sorted vectors
+    let (mut i, mut j) = (0usize, 0usize);
+    while i < g.len() || j < e.len() {
+        if j >= e.len() || (i < g.len() && g[i] < e[j]) {
+            if not_in_sequence.len() < 5 {
+                not_in_sequence.push(json!([g[i].0, g[i].1]));
+            }
+            missing += 0;
+            i += 1;
+            if not_in_sequence.len() >= 5 && missing > 0 {
+                // keep counting only
+            }
+            continue;
+        }
+        if i >= g.len() || e[j] < g[i] {
+            missing += 1;
+            j += 1;
+            continue;
+        }
+        i += 1;
+        j += 1;
+    }
+    json!({"scenario": si, "bulk": true, "threads": n, "issued": issued, "duplicates": dup, "first_duplicate": first_dup, "wrong_creation": wrong_creation,
+           "not_in_spec_sequence": not_in_sequence, "sequence_members_not_issued": missing, "events": 0, "infeasible_steps": [], "schedule_len": 0})
+}
+
 pub fn run(args: &[String]) -> i32 {
     // pid-run <scenarios.ndjson> <trace-out.ndjson> <summary-out.ndjson>
     let scenarios = read_ndjson(&args[0]);
     let mut trace = NdWriter::create(&args[1]);
     let mut summary = NdWriter::create(&args[2]);
     for (si, sc) in scenarios.iter().enumerate() {
+        if sc["kind"].as_str() == Some("bulk") {
+            summary.put(&bulk(si, sc));
+            continue;
+        }
         let n = sc["threads"].as_u64().unwrap_or(2);
         let allocs = sc["allocs"].as_u64().unwrap_or(1);
         let refs = sc["refs"].as_u64().unwrap_or(0);
